@@ -55,6 +55,8 @@ def run_case(seed, tier, rec, st):
     rng = random.Random(seed)
     fam = Family("c12")
     try:
+        if rng.random() < 0.08:
+            return twin_fields_case(rng, tier, rec, fam)
         fam.exec_src(PRE)
         mod = fam.module
         mode = rng.choice(["config", "annotated", "union", "tagger", "nofield", "nested"])
@@ -62,6 +64,8 @@ def run_case(seed, tier, rec, st):
         mixin = "DataClassDictMixin" if (mode in ("config", "nested") or rng.random() < 0.6) else ""
         base = f"({mixin})" if mixin else ""
         inc_super = rng.random() < 0.5
+        # other Annotated metadata in front of the Discriminator
+        pre_ann = rng.choice(["", "", "'doc', ", "{'note': 1}, 'x', "])
         tags = list(TAGS)
         rng.shuffle(tags)
         events = []
@@ -117,7 +121,7 @@ def run_case(seed, tier, rec, st):
                 disc = f"Discriminator(field='k', include_subtypes=True, include_supertypes={inc_super}, variant_tagger_fn={tg})"
             else:
                 disc = f"Discriminator(field='k', include_subtypes=True, include_supertypes={inc_super})"
-            fam.exec_src(f"DISC = Annotated[R, {disc}]\n@dataclass\nclass H(DataClassDictMixin):\n    p: DISC\n    q: List[DISC] = field(default_factory=list)\n")
+            fam.exec_src(f"DISC = Annotated[R, {pre_ann}{disc}]\n@dataclass\nclass H(DataClassDictMixin):\n    p: DISC\n    q: List[DISC] = field(default_factory=list)\n")
             dec = BasicDecoder(mod.DISC)
             dec_list = BasicDecoder(eval("Dict[str, DISC]", mod.__dict__))
             wirings = {"holder": lambda d: mod.H.from_dict({"p": d}).p,
@@ -130,7 +134,7 @@ def run_case(seed, tier, rec, st):
             classes["Q"] = {"parent": None, "tag": None, "root": "Q"}
             order += ["R", "Q"]
             roots = ["R", "Q"]
-            fam.exec_src(f"DISC = Annotated[Union[R, Q], Discriminator(field='k', include_subtypes=True, include_supertypes={inc_super})]\n"
+            fam.exec_src(f"DISC = Annotated[Union[R, Q], {pre_ann}Discriminator(field='k', include_subtypes=True, include_supertypes={inc_super})]\n"
                          "@dataclass\nclass H(DataClassDictMixin):\n    p: DISC\n")
             dec = BasicDecoder(mod.DISC)
             wirings = {"holder": lambda d: mod.H.from_dict({"p": d}).p, "codec": dec.decode}
@@ -140,7 +144,7 @@ def run_case(seed, tier, rec, st):
             classes["R"] = {"parent": None, "tag": None, "root": "R"}
             order.append("R")
             roots = ["R"]
-            fam.exec_src(f"DISC = Annotated[R, Discriminator(include_subtypes=True, include_supertypes={inc_super})]\n"
+            fam.exec_src(f"DISC = Annotated[R, {pre_ann}Discriminator(include_subtypes=True, include_supertypes={inc_super})]\n"
                          "@dataclass\nclass H(DataClassDictMixin):\n    p: DISC\n")
             dec = BasicDecoder(mod.DISC)
             wirings = {"holder": lambda d: mod.H.from_dict({"p": d}).p, "codec": dec.decode}
@@ -276,3 +280,55 @@ def run_case(seed, tier, rec, st):
         rec.sample({"mode": mode, "history": [list(map(str, e)) for e in events[:10]]}) if len(events) > 6 else None
     finally:
         fam.dispose()
+
+
+def twin_fields_case(rng, tier, rec, fam):
+    """two fields of the SAME name in two plain holders of one decoder, each a tagged Union of its own with equal
+    Discriminator settings and the same tag values: every field keeps its own tag -> class registry."""
+    from mashumaro.codecs.basic import BasicDecoder
+    sub = rng.random() < 0.5
+    disc = f"Discriminator(field='k', include_supertypes=True, include_subtypes={sub})"
+    src = ""
+    for root in ("R", "Q"):
+        for tag in ("x", "y"):
+            src += f"@dataclass\nclass {root}{tag.upper()}:\n    k = {tag!r}\n    f_{root}{tag}: int = 0\n"
+    src += (f"DISC_R = Annotated[Union[RX, RY], {disc}]\nDISC_Q = Annotated[Union[QX, QY], {disc}]\n"
+            "@dataclass\nclass HA:\n    body: DISC_R\n@dataclass\nclass HB:\n    body: DISC_Q\n"
+            "@dataclass\nclass Env:\n    a: Optional[HA] = None\n    b: Optional[HB] = None\n")
+    fam.exec_src(src)
+    mod = fam.module
+    dec = rng.choice([lambda: BasicDecoder(mod.Env).decode, lambda: (lambda d, D=BasicDecoder(eval("List[Env]", mod.__dict__)): D.decode([d])[0])])()
+    model = {"R": {"x": "RX", "y": "RY"}, "Q": {"x": "QX", "y": "QY"}}
+    events = []
+    nsub = 0
+    for step in range(8 if tier == "quick" else 20):
+        if sub and rng.random() < 0.25 and nsub < 4:
+            nsub += 1
+            root = rng.choice(["R", "Q"])
+            parent = rng.choice(list(model[root].values()))
+            name, tag = f"{root}S{nsub}", f"s{nsub}"
+            fam.exec_src(f"@dataclass\nclass {name}({parent}):\n    k = {tag!r}\n    f_{name}: int = 0\n")
+            model[root][tag] = name
+            events.append(("define", name, parent, tag))
+            continue
+        side = rng.choice(["a", "b", "both", "both"])
+        d, exp = {}, {}
+        for s_, root in (("a", "R"), ("b", "Q")):
+            if side in (s_, "both"):
+                t = rng.choice(list(model[root]))
+                d[s_] = {"body": {"k": t}}
+                exp[s_] = model[root][t]
+        rec.evaluation()
+        try:
+            r = dec(d)
+            got = {s_: type(getattr(r, s_).body).__name__ for s_ in exp}
+        except Exception as e:
+            got = f"{type(e).__name__}: {e}"[:200]
+        events.append(("deser", repr(d), exp, got))
+        if got == exp:
+            rec.count("deser_hit")
+            rec.count("twin_field_hits")
+            rec.nontrivial(("twin-fields", sub, tuple(sorted(model["R"])), tuple(sorted(model["Q"])), side))
+        else:
+            rec.violation("history:twin-fields:wrong-class", {"source": "".join(fam.sources[1:]), "history": [list(map(str, e)) for e in events[-10:]],
+                          "input": repr(d), "expected": exp, "observed": got}, {"mode": "twin-fields", "side": side})
